@@ -147,12 +147,27 @@ STR_TO_INT = {"startswith", "endswith", "find", "rfind", "index", "rindex", "cou
 STR_TO_LIST = {"split", "rsplit", "splitlines", "partition", "rpartition"}
 
 
+class Table(dict):
+    """dict that records which scope read which key (dependency tracking for the worklist)."""
+
+    def __init__(self, pkg, name):
+        super().__init__()
+        self.pkg = pkg
+        self.name = name
+
+    def get(self, key, default=None):
+        cur = self.pkg._cur
+        if cur is not None:
+            self.pkg._deps.setdefault((self.name, key), set()).add(cur)
+        return dict.get(self, key, default)
+
+
 class Pkg:
     """type inference over `trees` (relpath -> ast.Module)."""
 
     def __init__(self, trees, dotted_of=None):
         self.trees = trees
-        self.dotted = dotted_of or {rp: rp[:-3].replace("/", ".") for rp in trees}
+        self.dotted = dotted_of or {rp: (rp[:-len("/__init__.py")] if rp.endswith("/__init__.py") else rp[:-3]).replace("/", ".") for rp in trees}
         self.by_dotted = {v: k for k, v in self.dotted.items()}
         self.scopes = {}
         self.scope_of_node = {}  # id(FunctionDef/Lambda/Module) -> Scope
@@ -160,14 +175,19 @@ class Pkg:
         self.modfuncs = {}  # (relpath, name) -> Scope
         self.imports = {}  # relpath -> {name: (dotted module, attr|None)}
         self.methods_by_name = {}
-        self.env = {}
-        self.ret = {}
-        self.yields = {}
-        self.attr = {}
-        self.attr_wild = {}
+        self._cur = None
+        self._deps = {}
+        self._dirty = set()
+        self._stmt = None
+        self.trace = None  # set to {} to record where 'top' first entered a table entry
+        self.env = Table(self, "env")
+        self.ret = Table(self, "ret")
+        self.yields = Table(self, "yields")
+        self.attr = Table(self, "attr")
+        self.attr_wild = Table(self, "wild")
         self.site_kind = {}
-        self.elem = {}
-        self.val = {}
+        self.elem = Table(self, "elem")
+        self.val = Table(self, "val")
         self.site_node = {}
         self.site_scope = {}
         self.changed = False
@@ -184,6 +204,7 @@ class Pkg:
                 self._sub.setdefault(b, set()).add(c.name)
         self._mro_cache = {}
         self._rel_cache = {}
+        self._root_cache = {}
 
     # ------------------------------------------------------------------ index
     def _new_scope(self, kind, node, parent, relpath, cls, qualname):
@@ -420,14 +441,50 @@ class Pkg:
         return out
 
     # ------------------------------------------------------------------ tables
+    def root_class(self, cname):
+        r = self._root_cache.get(cname)
+        if r is None:
+            r = cname
+            for k in self.mro(cname):
+                if k in self.classes:
+                    r = k
+            # single-inheritance chains only: otherwise keep the class itself
+            ci = self.classes.get(cname)
+            if ci is None or any(len(self.classes[k].bases) > 1 for k in self.mro(cname) if k in self.classes):
+                r = cname
+            self._root_cache[cname] = r
+        return r
+
+    def widen(self, t):
+        """more than 6 instance atoms: replace each class by the root of its (package) hierarchy --
+        sound because attribute/method lookup on ('obj', C) already covers every descendant of C."""
+        objs = [a for a in t if isinstance(a, tuple) and a[0] == "obj"]
+        if len(objs) <= 1:
+            return t
+        if len(objs) > 6:
+            return frozenset(a for a in t if a not in objs) | frozenset(("obj", self.root_class(a[1])) for a in objs)
+        # absorption: a class whose hierarchy root is already present adds nothing
+        drop = [a for a in objs if self.root_class(a[1]) != a[1] and ("obj", self.root_class(a[1])) in t]
+        return t - frozenset(drop) if drop else t
+
     def upd(self, table, key, t):
         if not t:
             return
-        old = table.get(key, BOT)
-        new = join(old, t)
+        old = dict.get(table, key, BOT)
+        new = self.widen(join(old, t))
         if new != old:
             table[key] = new
             self.changed = True
+            d = self._deps.get((table.name, key))
+            if d:
+                self._dirty |= d
+            if table.name == "attr":
+                d = self._deps.get(("attrname", key[1]))
+                if d:
+                    self._dirty |= d
+            if self.trace is not None and "top" in new and "top" not in old:
+                self.trace[(table.name, key)] = (self.scopes[self._cur].qualname if self._cur else None,
+                                                 getattr(self._stmt, "lineno", None))
 
     def new_site(self, node, kind, sc, tag=""):
         sid = (sc.relpath, getattr(node, "lineno", 0), getattr(node, "col_offset", 0), kind + tag)
@@ -480,7 +537,7 @@ class Pkg:
             if name in s.bound:
                 if s.kind != "module":
                     nested = getattr(s, "nested", {})
-                    if name in nested and (s.id, name) not in self.env:
+                    if name in nested and not self.env.get((s.id, name)):
                         return frozenset([("func", nested[name].id)])
                     return self.env.get((s.id, name), BOT)
                 break
@@ -561,6 +618,8 @@ class Pkg:
 
     def attr_by_name(self, a):
         r = TOP
+        if self._cur is not None:
+            self._deps.setdefault(("attrname", a), set()).add(self._cur)
         for (k, an), t in self.attr.items():
             if an == a:
                 r = join(r, t)
@@ -1093,24 +1152,21 @@ class Pkg:
         if isinstance(op, ast.Add):
             if "str" in l and "str" in r:
                 out = join(out, STR)
-            for a in l | r:
-                if isinstance(a, tuple) and a[0] in ("tup", "tupv"):
-                    out = join(out, frozenset([("tupv", join(self.elem_of(l), self.elem_of(r)))]))
-                    break
+            if any(isinstance(a, tuple) and a[0] in ("tup", "tupv") for a in l | r):
+                out = join(out, frozenset([("tupv", join(self.elem_of(l), self.elem_of(r)))]))
         if isinstance(op, ast.Mult) and ("str" in l or "str" in r):
             out = join(out, STR)
-        if "int" in l or "int" in r:
-            # number op anything: a number, or TypeError (no reflected operators in the analysed package)
-            if not (isinstance(op, ast.Mult) and (("str" in l | r) or llists or rlists)) or ("int" in l and "int" in r):
-                out = join(out, INT)
-        if not out:
-            if "top" in l or "top" in r or not l or not r:
-                return TOP
-            return TOP
-        if ("top" in l and "top" in r):
+        lu = "top" in l or not l
+        ru = "top" in r or not r
+        if "int" in l and "int" in r:
+            out = join(out, INT)
+        elif ("int" in l and ru) or ("int" in r and lu):
+            # number (op) unknown: a number, or TypeError -- the analysed package defines no reflected operators
+            out = join(out, INT)
+        if lu and ru:
             out = join(out, TOP)
-        elif ("top" in l and "int" not in r) or ("top" in r and "int" not in l):
-            out = join(out, TOP)
+        elif not out:
+            out = TOP
         return out
 
     def ev_UnaryOp(self, n, sc):
@@ -1299,6 +1355,7 @@ class Pkg:
             self.run_stmt(s, sc)
 
     def run_stmt(self, s, sc):
+        self._stmt = s
         if isinstance(s, ast.Assign):
             t = self.ev(s.value, sc)
             for tg in s.targets:
@@ -1389,47 +1446,52 @@ class Pkg:
         return c
 
     # ------------------------------------------------------------------ solve
-    def solve(self, max_passes=40):
+    def _run_scope(self, sc):
+        self._cur = sc.id
+        if sc.kind == "module":
+            self.run_body(sc.node.body, sc)
+            for ci in self.classes.values():
+                if ci.relpath == sc.relpath:
+                    for m in ci.methods.values():
+                        self.run_stmt(m.node, sc)  # parameter defaults of methods
+        elif sc.kind == "func":
+            if getattr(sc, "defcls", None) and not sc.is_static and sc.params:
+                self.upd(self.env, (sc.id, sc.params[0]), frozenset([("obj", sc.defcls)]))
+            if sc.vararg:
+                self.upd(self.env, (sc.id, sc.vararg), frozenset([("tupv", TOP)]))
+            if sc.kwarg:
+                self.upd(self.env, (sc.id, sc.kwarg), TOP)
+            self.run_body(sc.node.body, sc)
+        else:
+            self.upd(self.ret, sc.id, self.ev(sc.node.body, sc))
+        self._cur = None
+
+    def solve(self, max_runs=60):
+        """chaotic iteration: a scope is re-run when a table entry it read has grown."""
         order = sorted(self.scopes.values(), key=lambda s: s.id)
-        while True:
-            self.changed = False
-            self.passes += 1
-            for sc in order:
-                if sc.kind == "module":
-                    self.run_body(sc.node.body, sc)
-                    # class-level defaults of methods
-                    for ci in self.classes.values():
-                        if ci.relpath == sc.relpath:
-                            for m in ci.methods.values():
-                                self.run_stmt(m.node, sc)
-                elif sc.kind == "func":
-                    if getattr(sc, "defcls", None) and not sc.is_static and sc.params:
-                        self.upd(self.env, (sc.id, sc.params[0]), frozenset([("obj", sc.defcls)]))
-                    if sc.vararg:
-                        self.upd(self.env, (sc.id, sc.vararg), frozenset([("tupv", TOP)]))
-                    if sc.kwarg:
-                        self.upd(self.env, (sc.id, sc.kwarg), TOP)
-                    self.run_body(sc.node.body, sc)
-                else:
-                    self.upd(self.ret, sc.id, self.ev(sc.node.body, sc))
-            if not self.changed:
-                break
-            if self.passes >= max_passes:
-                raise AnalysisError("type inference did not converge in %d passes" % max_passes)
-        # parameters of functions nobody in the package calls are unknown: second phase
-        grew = False
-        for sc in order:
-            if sc.kind in ("func", "lambda"):
-                ps = list(sc.params)
-                if getattr(sc, "defcls", None) and not sc.is_static and ps:
-                    ps = ps[1:]
-                for p in ps + list(getattr(sc, "kwonly", ())):
-                    if not self.env.get((sc.id, p)):
-                        self.env[(sc.id, p)] = TOP
-                        grew = True
-        if grew and not getattr(self, "_phase2", False):
-            self._phase2 = True
-            return self.solve(max_passes)
+        runs = {}
+        for phase in (1, 2):
+            self._dirty = set(self.scopes)
+            while self._dirty:
+                self.passes += 1
+                todo = [sc for sc in order if sc.id in self._dirty]
+                self._dirty = set()
+                for sc in todo:
+                    runs[sc.id] = runs.get(sc.id, 0) + 1
+                    if runs[sc.id] > max_runs:
+                        raise AnalysisError("type inference did not converge (%s re-run %d times)" % (sc.qualname, max_runs))
+                    self._run_scope(sc)
+            if phase == 1:
+                # parameters no call inside the package ever binds are unknown (entry points)
+                for sc in order:
+                    if sc.kind in ("func", "lambda"):
+                        ps = list(sc.params)
+                        if getattr(sc, "defcls", None) and not sc.is_static and ps:
+                            ps = ps[1:]
+                        for p in ps + list(getattr(sc, "kwonly", ())):
+                            if not dict.get(self.env, (sc.id, p)):
+                                self.env[(sc.id, p)] = TOP
+        self.total_runs = sum(runs.values())
         return self
 
     # ------------------------------------------------------- element categories
